@@ -59,8 +59,8 @@ func vxOpen(name string) (*os.File, error) {
 	}
 	return vxHandle, nil
 }
-func vxClose(f *os.File) error         { return nil }
-func vxIsNotExist(err error) bool      { return err == vxErrNoEnt }
+func vxClose(f *os.File) error    { return nil }
+func vxIsNotExist(err error) bool { return err == vxErrNoEnt }
 func vxReaddirnames(f *os.File, n int) ([]string, error) {
 	var out []string
 	for _, e := range vxDir {
